@@ -605,6 +605,8 @@ func ruleC11_5(c *Ctx, r *Rep) {
 		return
 	}
 	ai := newAI(c)
+	// private helpers that clamp one limit are analysed with the caller's abstract arguments
+	ai.Inline = func(cal *ssa.Function, call *ssa.Call, args []*AV) bool { return true }
 	entry := &aiState{vals: map[ssa.Value]*AV{}, mem: map[string]*AV{}}
 	for _, p := range fn.Params {
 		entry.vals[p] = topOf(p.Type(), true)
